@@ -139,6 +139,8 @@ def run(ck: Check):
             bad = None
         if bad:
             ck.violation(f"[{atom}] {len(data)}-byte file '{name}': {bad}", {"atom": atom, "file": name, "size": len(data)})
+    from envmatrix import run_matrix
+    run_matrix(ck, ("C08",))
     block_boundary_loads(ck, quick, judge)
     # the same object loading a second file (a library user, a second pass) splits it like a fresh object
     from props.c06 import reload_same_object
